@@ -126,6 +126,7 @@ class Task:
         self.value = None       # return value of the decoder generator (the object)
         self.steps = 0
         self.calls_at_end = None
+        self.decoder_raised = False
         data = bytes.fromhex(spec["data"])
         self.n_input = len(data)
         buf, self.counter = make_source(spec.get("source", "bytes"), data, spec.get("chunks"), hook)
@@ -163,6 +164,9 @@ class Task:
                 e = next(g)
             except StopIteration as s:
                 return s.value
+            except BaseException:
+                self.decoder_raised = True      # the exception comes from the decoder stage, not from a consumer
+                raise
             self.events.append(e)
             self.items.append(real.ev_item(e))
             self.pulls_at.append(self.counter.pulls if isinstance(self.counter, CountingSource) else
